@@ -199,13 +199,15 @@ theorem exec_rebinds_callee_witness :
     calleeOf (fingerprint q wPool (step q wPool wK s2 (.compile 5 [] false)).1 1) = some (.pool 5) := by
   decide
 
-/-- a source function called like a local of `from_function` (the list is read from the source on
-every run): `original_f` is not a function -/
+/-- a source function called like a local of `from_function` – for **every** name in the list that
+is read from the current source on every run (`f`, `types`, `defs`, … as long as `eval(name)` is
+there; empty once it is gone): `original_f` is not a function, while in the repaired model it is -/
 theorem eval_sees_locals_witness :
-    let q := Quirks.ofList ["evalSeesLocals"]
-    Gen.fromFunctionLocalsAtEval.contains "f" = true ∧
-    isNotCallable (fingerprint q wPool (run q wPool wK ApiState.init [.compile 4 [] false]) 0) = true ∧
-    isNotCallable (fingerprint Quirks.none wPool (run Quirks.none wPool wK ApiState.init [.compile 4 [] false]) 0) = false := by
+    ∀ n ∈ Gen.fromFunctionLocalsAtEval,
+      let q := Quirks.ofList ["evalSeesLocals"]
+      let P : Pool := [{ name := n }]
+      isNotCallable (fingerprint q P (run q P wK ApiState.init [.compile 0 [] false]) 0) = true ∧
+      isNotCallable (fingerprint Quirks.none P (run Quirks.none P wK ApiState.init [.compile 0 [] false]) 0) = false := by
   decide
 
 /-- hence the full property fails for the model of the code as it is -/
